@@ -246,7 +246,7 @@ def explore_all(modname, queries, report, chunk=400, time_budget=None):
             nonlocal pending
             pending += 1
             return pool.apply_async(worker, ((modname, q, prefixes, chunk, prof),))
-        handles = [submit(q, [[]], i < 3) for i, q in enumerate(queries)]
+        handles = [submit(q, [[]], i % max(1, len(queries) // 12) == 0) for i, q in enumerate(queries)]
         report.queries = len(queries)
         while handles:
             nxt = []
